@@ -392,8 +392,20 @@ namespace {
          const ipr::Region* pr = region_arg(w[1]);
          if (pr == nullptr) return "bad-ref";
          NodeEntry e { };
+         // a user-defined type gets its name from the client after creation (the `id` field): none, a name of its own, the name every
+         // unnamed entity shares (the empty identifier: `namespace { }`, `struct { }`), a reserved word used as a name.  What a
+         // type is called decides nothing about where its region lies or whether that region is the global one.
+         auto name_it = [&](auto* udt) {
+            switch (counter++ % 4) {
+            case 1: udt->id = &fresh_name(); break;
+            case 2: udt->id = &lexicon->get_identifier(u8""); break;
+            case 3: udt->id = &lexicon->get_identifier(u8"namespace"); break;
+            default: break;
+            }
+         };
          if (op == "class") {
             impl::Class* c = lexicon->make_class(*pr);
+            name_it(c);
             const ipr::Class& ic = *c;
             e.kind = NK::Udt_class; e.cls = c;
             std::string s = nname(key_of(ic), &e) + " body=" + rname(ic.region());
@@ -402,23 +414,27 @@ namespace {
          }
          if (op == "union") {
             impl::Union* u = lexicon->make_union(*pr);
+            name_it(u);
             const ipr::Union& iu = *u;
             e.kind = NK::Udt_union; e.uni = u;
             return nname(key_of(iu), &e) + " body=" + rname(iu.region());
          }
          if (op == "enum") {
             impl::Enum* en = lexicon->make_enum(*pr, (counter++ % 2) ? ipr::Enum::Kind::Scoped : ipr::Enum::Kind::Legacy);
+            name_it(en);
             const ipr::Enum& ie = *en;
             e.kind = NK::Udt_enum; e.enm = en;
             return nname(key_of(ie), &e) + " body=" + rname(ie.region());
          }
          if (op == "ns") {
             impl::Namespace* ns = lexicon->make_namespace(*pr);
+            name_it(ns);
             const ipr::Namespace& in = *ns;
             e.kind = NK::Udt_ns; e.ns = ns;
             return nname(key_of(in), &e) + " body=" + rname(in.region());
          }
          impl::Closure* c = lexicon->make_closure(*pr);
+         name_it(c);
          const ipr::Closure& ic = *c;
          e.kind = NK::Udt_closure; e.closure = c;
          return nname(key_of(ic), &e) + " body=" + rname(ic.region());
